@@ -143,6 +143,9 @@ func runC01(r *hk.Run) {
 	// (d) connection-level events: the retry must carry the body
 	runEventCells(r, rng.Fork())
 
+	// (l) one Request sent several times while its body value changes
+	runRemarshalCells(r, rng.Fork())
+
 	// (k) HTTP/2: locally refused over-limit requests between requests that share HPACK state
 	runHpackCells(r, rng.Fork())
 
